@@ -22,6 +22,9 @@ CHECKS = {
  "C02": dict(cat="model_checking", technique="the same exhaustive program enumeration plus the full operator x boundary-operand matrix and the effect-order matrix, every engine (native, VM) in both notations judged against NanoRef, an independent executable transcription of the specification",
              text="For every enumerated program the reference interpreter NanoRef (written from SPECIFICATION.md 4-8: strict left-to-right, short-circuit, static scoping and block shadowing, for = while desugaring, 64-bit wrap, truncating division) computes the prescribed output; the native binary and the VM, each fed the prefix and the infix spelling, must print exactly that. All 13 binary operators x all ordered pairs of a 13-14 value boundary pool and every operator/call/literal with effectful operands are included. Disagreement of one engine is a violation; engines agreeing with each other but not with the reference is flagged for oracle triage.",
              note="NanoRef is trusted as the reading of the spec (its self-test replays the spec's own examples); x/0, x%0, INT64_MIN/-1 are outside the defined domain; the Coq relation is covered only where it coincides with the 64-bit spec", ref="DESIGN.md §4 C02"),
+ "C07": dict(cat="model_checking", technique="exhaustive enumeration of operator pairs (both shapes x every leaf kind in every position), operator triples (all 5 shapes), unary placements and nesting/long-file families; byte comparison of the code the real compiler emits for the prefix and the infix spelling, plus NanoRef value check",
+             text="~69,000 expressions: every ordered pair of the 13 binary operators in both association shapes with each of 7 leaf kinds (literal, variable, p.x, p.n.y, q.0, call, parenthesised prefix form) in every leaf position, every typed operator triple in all five tree shapes, unary -/not at every operand position, nesting to depth 400 and a 2,700-expression single file. Each is printed as fully parenthesised prefix form and as minimally parenthesised infix form per the stated rule, both are compiled by the real nano_virt --emit-nvm and the per-function code bytes must be identical; the prefix program is run and each value compared with NanoRef.",
+             note="expressions sit in statement position ('let v: T = e'); a parenthesised infix expression starting with a unary operator is excluded because '(' + operator is the prefix form by definition; depth > 400 is C09's business", ref="DESIGN.md §4 C07"),
 }
 NA_REASON = "check not built yet in this round (planned, see DESIGN.md §9); no claim is made"
 def main():
